@@ -116,8 +116,16 @@ def config(kill_plugin="kill_by_memory_size_or_growth", recursive=False):
          "actions": [det("kill_by_swap_usage", cgroup="workload/*", threshold="1%",
                          biased_swap_kill="true" if recursive else "false")], "post_action_delay": "0"},
         {"name": "senpai", "detectors": [["e", det("exists", cgroup="workload")]],
-         "actions": [det("senpai", cgroup="workload/c", limit_min_bytes=1 << 20, interval=1)]},
-    ]}
+         "actions": [det("senpai", cgroup="workload/c", limit_min_bytes=1 << 20, interval=1,
+                         immediate_backoff="true" if recursive else "false")]},
+        # a ruleset-level cgroup (one instance per matching cgroup, created / discarded as they appear / vanish) and a
+        # dry systemd_restart behind a memory.stat-based detector
+        {"name": "percg", "cgroup": "workload/*",
+         "detectors": [["anon", det("memory_above", threshold_anon="1M", duration=0)]],
+         "actions": [det("systemd_restart", service="x.service", dry="true")], "post_action_delay": "0"},
+    ] + ([] if not recursive else []),
+        # prekill hooks are fired for every victim of the kill actions above
+        "prekill_hooks": [det("dummy_prekill_hook", cgroup="workload/*")]}
 
 
 PROC = {
